@@ -464,9 +464,13 @@ def bounded(tier, seed):
         if tier == "quick":
             rnd.shuffle(combos)
             combos = [c for c in combos if len(c) == 1] + combos[:160]
-        for combo in combos:
+        for combo, hook in [(c, h) for c in combos for h in ((False, True) if len(c) <= 2 else (False,))]:
             ir, m, bi, B, fl = build()
             rc = RewritingContext(m, fl)
+            hooksym = None
+            if hook:
+                # a function inserted in the same round: the scopes designate blocks of the module as it was handed in, never the new function
+                hooksym = rc.register_insert_function("hook", Patch.from_function(patch_constraints()(lambda ictx: "nop\nret")))
             seen = []
             for k, ri in enumerate(combo):
                 name, mk, pred, pos = regs[ri]
@@ -483,8 +487,8 @@ def bounded(tier, seed):
                 else:
                     rc.register_insert(mk(B), mkpatch())
             br.cases += 1
-            distinct.add(combo)
-            desc = {"registrations in order": [regs[i][0] for i in combo]}
+            distinct.add((combo, hook))
+            desc = {"registrations in order": [regs[i][0] for i in combo], "a function inserted in the same round": hook}
             try:
                 rc.apply()
             except Exception as e:
@@ -505,7 +509,15 @@ def bounded(tier, seed):
                     out += b"".join(ins.get(o, []))
                     out += data[o:o + 1]
                 want += out
-            got = b"".join(bytes(i.contents) for i in sorted(m.byte_intervals, key=lambda i: i.address))
+            hook_ivs = set()
+            if hook:
+                hb = hooksym.referent
+                hook_ivs = {hb.byte_interval}
+                hbytes = b"".join(bytes(b_.contents) for b_ in sorted(hb.byte_interval.blocks, key=lambda b_: b_.offset))
+                if hbytes.rstrip(b"\x90\xcc\x00") != b"\x90\xc3" and hbytes != b"\x90\xc3":
+                    br.failures.append({"clause": "C07/marker-exactly-once-in-each-designated-block-and-nowhere-else", "witness": desc,
+                                        "detail": "the function inserted in the same round was itself instrumented: its bytes are %s" % hbytes.hex()})
+            got = b"".join(bytes(i.contents) for i in sorted(m.byte_intervals, key=lambda i: i.address) if i not in hook_ivs)
             if got != want:
                 # classify
                 cnt_ok = all(got.count(markers[k]) == sum(1 for b in order if regs[ri][2](b)) for k, ri in enumerate(combo))
